@@ -41,7 +41,7 @@ type hbConf struct {
 	expect  bool
 }
 
-func c16heartbeats(rep *vh.Report, seed uint64, idx int, P time.Duration) (spacingBad bool) {
+func c16heartbeats(rep *vh.Report, seed uint64, idx int, P time.Duration) (spacingBad bool, wayOff bool) {
 	r := vh.Sub(seed, fmt.Sprintf("c16-hb-%d", idx))
 	k := 1 + r.Intn(4)
 	sysType, apType := 1+r.Intn(30), r.Intn(20)
@@ -179,7 +179,7 @@ func c16heartbeats(rep *vh.Report, seed uint64, idx int, P time.Duration) (spaci
 			rep.Violation("what=hb-rate", fmt.Sprintf("%d heartbeats within %v at period %v: more than one per period", counts[ti], tEnd.Sub(t0), P), nil)
 		}
 		// spacing: median inter-arrival
-		if len(arrivals) >= 20 {
+		if len(arrivals) >= 8 {
 			var gaps []float64
 			for i := 1; i < len(arrivals); i++ {
 				gaps = append(gaps, float64(arrivals[i]-arrivals[i-1]))
@@ -190,8 +190,15 @@ func c16heartbeats(rep *vh.Report, seed uint64, idx int, P time.Duration) (spaci
 			if med < 0.8 || med > 1.3 {
 				spacingBad = true
 			}
+			if len(arrivals) < 20 {
+				spacingBad = true
+			}
+			if med < 0.6 || med > 1.7 {
+				wayOff = true // what a wrong period looks like (halved / doubled), not what scheduling jitter looks like
+			}
 		} else {
 			spacingBad = true // too few heartbeats for the configured period
+			wayOff = true     // fewer than 8 heartbeats in 24 periods
 		}
 	}
 	// every open channel gets every tick (all channels were open from the first tick on)
@@ -203,7 +210,7 @@ func c16heartbeats(rep *vh.Report, seed uint64, idx int, P time.Duration) (spaci
 	}
 	rep.Count("heartbeat_runs", 1)
 	rep.Distinct("hb", k, sysType, apType, ver, int(P/time.Millisecond), outV)
-	return spacingBad || spacingLate
+	return spacingBad || spacingLate, wayOff
 }
 
 func c16noHeartbeats(rep *vh.Report) {
@@ -562,11 +569,15 @@ func TestC16(t *testing.T) {
 			continue
 		}
 		P := []time.Duration{20 * time.Millisecond, 50 * time.Millisecond}[i%2]
-		if c16heartbeats(rep, seed, i, P) {
+		if bad, _ := c16heartbeats(rep, seed, i, P); bad {
 			// re-run at a larger period before declaring a spacing violation
-			if c16heartbeats(rep, seed, i+1000, 5*P) {
-				rep.Violation("what=hb-rate", fmt.Sprintf("heartbeat spacing is not the configured period (median outside [0.8,1.3] x period at %v and at %v)", P, 5*P), nil)
-			} else {
+			bad2, way2 := c16heartbeats(rep, seed, i+1000, 5*P)
+			switch {
+			case bad2 && way2:
+				rep.Violation("what=hb-rate", fmt.Sprintf("heartbeat spacing is not the configured period (median spacing outside [0.6,1.7] x period, or fewer than 10 of 24 heartbeats, also at %v)", 5*P), nil)
+			case bad2:
+				rep.Inconclusive(fmt.Sprintf("heartbeat spacing slightly off at %v and at %v (median outside [0.8,1.3] but inside [0.6,1.7] x period: load)", P, 5*P))
+			default:
 				rep.Inconclusive(fmt.Sprintf("heartbeat spacing off at %v but fine at %v (load)", P, 5*P))
 			}
 		}
